@@ -22,7 +22,7 @@ def one(kind, sid, tier):
            "--isolated", "--skip-confirm", "--tier", tier] + (["--neutral"] if kind == "neutral" else [])
     subprocess.run(cmd, stdout=subprocess.PIPE, stderr=subprocess.STDOUT, text=True)
     meta = json.load(open(os.path.join(d, "meta.json")))
-    return sid, meta["property"], {c: r["exit"] for c, r in meta["checks_run"].items()}
+    return sid, meta["property"], {c: r["exit"] for c, r in meta["checks_run"].items()}, bool(meta.get("note"))
 
 
 def main():
@@ -36,10 +36,10 @@ def main():
     ids = sorted(x for x in os.listdir(os.path.join(ROOT, kind)) if x.startswith(a.only))
     bad = []
     with cf.ThreadPoolExecutor(a.jobs) as ex:
-        for sid, prop, res in ex.map(lambda s: one(kind, s, a.tier), ids):
+        for sid, prop, res, noted in ex.map(lambda s: one(kind, s, a.tier), ids):
             line = " ".join(f"{c}={e}" for c, e in sorted(res.items()))
             print(f"{sid} [{prop}] {line}", flush=True)
-            if kind == "seeded" and res.get(prop) != 1:
+            if kind == "seeded" and res.get(prop) != 1 and not noted:
                 bad.append((sid, "MISSED by its own property's check", line))
             if kind == "neutral" and any(e != 0 for e in res.values()):
                 bad.append((sid, "ALARM/ERROR on a neutral change", line))
